@@ -1,6 +1,7 @@
 package main
 
 import (
+	"sort"
 	"bytes"
 	"context"
 	"fmt"
@@ -30,6 +31,9 @@ func (cx *Ctx) relevantAxioms(syms map[string]bool) ([]*Term, []string, error) {
 	}
 	var all []ax
 	for _, a := range cx.spec.axioms {
+		if strings.HasPrefix(a.Name, "doc-") {
+			continue // documents the meaning of a trusted function; no VC needs it
+		}
 		env := &Env{cx: cx, st: cx.tree, vars: map[string]*Term{}}
 		t, err := env.EvalBool(a.Body)
 		if err != nil {
@@ -69,6 +73,75 @@ func (cx *Ctx) relevantAxioms(syms map[string]bool) ([]*Term, []string, error) {
 	return out, names, nil
 }
 
+// usableLemmas instantiates the 'use' lemmas of the prelude (proved separately as lemma obligations)
+// as quantified facts, once per tree epoch whose recursive symbols occur in the query.
+func (cx *Ctx) usableLemmas(syms map[string]bool) ([]*Term, []string, error) {
+	var out []*Term
+	var names []string
+	epochs := []string{""}
+	for e := range cx.epochs {
+		epochs = append(epochs, e)
+	}
+	sort.Strings(epochs)
+	for _, l := range cx.spec.lemmas {
+		if !l.Use || l.Trigger == nil {
+			continue
+		}
+		for _, ep := range epochs {
+			st := cx.treeFor(ep)
+			if st == nil {
+				continue
+			}
+			vars := map[string]*Term{}
+			var bvs []*Term
+			var rerr error
+			func() {
+				defer func() {
+					if r := recover(); r != nil {
+						rerr = fmt.Errorf("lemma %s: %v", l.Name, r)
+					}
+				}()
+				for _, qv := range l.Vars {
+					s, gt := cx.ResolveType(qv.Type)
+					cx.n++
+					bv := V(fmt.Sprintf("q_%s_%d", qv.Name, cx.n), s)
+					bv.T = gt
+					vars[qv.Name] = bv
+					bvs = append(bvs, bv)
+				}
+			}()
+			if rerr != nil {
+				return nil, nil, rerr
+			}
+			env := &Env{cx: cx, st: st, old: st, vars: vars, epochSt: st}
+			trig, err := env.Eval(l.Trigger)
+			if err != nil {
+				return nil, nil, fmt.Errorf("lemma %s trigger: %v", l.Name, err)
+			}
+			// relevant only if the trigger's head symbol occurs in the query
+			if !syms[trig.Op] {
+				continue
+			}
+			var hyps []*Term
+			for _, h := range l.Hyps {
+				t, err := env.EvalBool(h)
+				if err != nil {
+					return nil, nil, fmt.Errorf("lemma %s: %v", l.Name, err)
+				}
+				hyps = append(hyps, t)
+			}
+			goal, err := env.EvalBool(l.Body)
+			if err != nil {
+				return nil, nil, fmt.Errorf("lemma %s: %v", l.Name, err)
+			}
+			out = append(out, Forall(bvs, Imp(And(hyps...), goal), []*Term{trig}))
+			names = append(names, "lemma "+l.Name+" (epoch "+ep+")")
+			collectSyms(goal, map[string]bool{}, syms)
+		}
+	}
+	return out, names, nil
+}
+
 // BuildSMT renders a query as an SMT-LIB2 script.
 func (q *Query) BuildSMT(fuel int, extra []*Term, globalFacts []*Term) (string, error) {
 	cx := q.Cx
@@ -80,6 +153,28 @@ func (q *Query) BuildSMT(fuel int, extra []*Term, globalFacts []*Term) (string, 
 	all := append(append([]*Term(nil), asserts...), neg)
 	if cx.fuel > 0 {
 		fuel = cx.fuel
+	}
+	// clause-level unfold additions (restored afterwards: the context is shared by the unit's queries)
+	if len(q.Unfold) > 0 {
+		savedOnly, savedDepth := cx.unfoldOnly, cx.unfoldDepth
+		no, nd := map[string]bool{}, map[string]int{}
+		for k, v := range savedOnly {
+			no[k] = v
+		}
+		for k, v := range savedDepth {
+			nd[k] = v
+		}
+		for _, n := range q.Unfold {
+			name, depth, has := strings.Cut(strings.Trim(n, ","), ":")
+			no[name] = true
+			if has {
+				d := 1
+				fmt.Sscan(depth, &d)
+				nd[name] = d
+			}
+		}
+		cx.unfoldOnly, cx.unfoldDepth = no, nd
+		defer func() { cx.unfoldOnly, cx.unfoldDepth = savedOnly, savedDepth }()
 	}
 	eqs, err := cx.unfoldRecDefs(all, fuel)
 	if err != nil {
@@ -95,6 +190,14 @@ func (q *Query) BuildSMT(fuel int, extra []*Term, globalFacts []*Term) (string, 
 	axs, axNames, err := cx.relevantAxioms(syms)
 	if err != nil {
 		return "", err
+	}
+	if q.Ob == nil || q.Ob.Kind != "lemma" {
+		lts, lnames, err := cx.usableLemmas(syms)
+		if err != nil {
+			return "", err
+		}
+		axs = append(axs, lts...)
+		axNames = append(axNames, lnames...)
 	}
 	// axioms may mention recursive definitions too
 	eqs2, err := cx.unfoldRecDefs(axs, 1)
@@ -112,8 +215,10 @@ func (q *Query) BuildSMT(fuel int, extra []*Term, globalFacts []*Term) (string, 
 			fmt.Fprintf(&b, "(declare-const %s %s)\n", quoteSym(n), cx.consts[n])
 		}
 	}
+	// every assertion is emitted on one line, preceded by a class comment, so that weakened
+	// variants of the query can be derived by dropping classes of lines (see variants()).
 	for i, a := range axs {
-		fmt.Fprintf(&b, "; axiom %s\n(assert %s)\n", axNames[i], a)
+		fmt.Fprintf(&b, "; axiom %s\n%s(assert %s)\n", axNames[i], tagAxiom, a)
 	}
 	for _, e := range eqs {
 		fmt.Fprintf(&b, "; unfolding\n(assert %s)\n", e)
@@ -122,7 +227,11 @@ func (q *Query) BuildSMT(fuel int, extra []*Term, globalFacts []*Term) (string, 
 		fmt.Fprintf(&b, "; unfolding (axiom)\n(assert %s)\n", e)
 	}
 	for _, a := range asserts {
-		fmt.Fprintf(&b, "(assert %s)\n", a)
+		if hasQuantifier(a) {
+			fmt.Fprintf(&b, "%s(assert %s)\n", tagQuant, a)
+		} else {
+			fmt.Fprintf(&b, "(assert %s)\n", a)
+		}
 	}
 	if q.Cover {
 		b.WriteString("; cover: the path must be satisfiable\n")
@@ -131,8 +240,48 @@ func (q *Query) BuildSMT(fuel int, extra []*Term, globalFacts []*Term) (string, 
 	}
 	b.WriteString("(check-sat)\n")
 	s := b.String()
-	// constants with '!' or '@' need quoting
 	return s, nil
+}
+
+const tagAxiom = ";#axiom\n"
+const tagQuant = ";#quant\n"
+
+func hasQuantifier(t *Term) bool {
+	if t.Op == "forall" || t.Op == "exists" {
+		return true
+	}
+	for _, a := range t.Args {
+		if hasQuantifier(a) {
+			return true
+		}
+	}
+	return false
+}
+
+// variants derives sound weakenings of a query (fewer assumptions): unsat for any of them proves
+// the obligation. dropAxioms removes prelude axioms and lemmas, dropQuant removes quantified path facts.
+func variant(smt string, dropAxioms, dropQuant bool) string {
+	lines := strings.Split(smt, "\n")
+	var out []string
+	for i := 0; i < len(lines); i++ {
+		ln := lines[i]
+		if ln == strings.TrimSuffix(tagAxiom, "\n") {
+			if dropAxioms {
+				i++
+				continue
+			}
+			continue
+		}
+		if ln == strings.TrimSuffix(tagQuant, "\n") {
+			if dropQuant {
+				i++
+				continue
+			}
+			continue
+		}
+		out = append(out, ln)
+	}
+	return strings.Join(out, "\n")
 }
 
 func quoteSym(n string) string {
@@ -193,34 +342,41 @@ func Solve(file string, opts SolverOpts, cover bool) (result, solver, output str
 		r, out := runSolver(context.Background(), solvers[0], file, 1, opts.Seed)
 		return r, solvers[0].name, out, time.Since(start).Milliseconds(), nil
 	}
-	// stage 1: z3-new alone, short
-	short := 3
-	if opts.TimeoutS < short {
-		short = opts.TimeoutS
-	}
-	r, out := runSolver(context.Background(), solvers[0], file, short, opts.Seed)
-	if r == "unsat" || r == "sat" {
-		result, solver, output = r, solvers[0].name, out
-	} else {
-		// stage 2: race all three with the full timeout
+	race := func(files []string, full int, timeout int) (string, string, string) {
 		ctx, cancel := context.WithCancel(context.Background())
-		type res struct{ r, out, name string }
-		ch := make(chan res, len(solvers))
-		for _, sp := range solvers {
-			sp := sp
-			go func() {
-				r, out := runSolver(ctx, sp, file, opts.TimeoutS, opts.Seed)
-				ch <- res{r, out, sp.name}
-			}()
+		defer cancel()
+		type res struct {
+			r, out, name string
+			full         bool
 		}
-		result, solver, output = "unknown", "", ""
-		var errs []string
-		for i := 0; i < len(solvers); i++ {
-			x := <-ch
-			if x.r == "unsat" || x.r == "sat" {
-				result, solver, output = x.r, x.name, x.out
-				break
+		n := 0
+		ch := make(chan res, len(solvers)*len(files))
+		for fi, fl := range files {
+			for _, sp := range solvers {
+				sp, fl, isFull := sp, fl, fi == full
+				n++
+				go func() {
+					r, out := runSolver(ctx, sp, fl, timeout, opts.Seed)
+					name := sp.name
+					if !isFull {
+						name += "(weakened)"
+					}
+					ch <- res{r, out, name, isFull}
+				}()
 			}
+		}
+		result, solver, output := "unknown", "", ""
+		var errs []string
+		fullAnswers := 0
+		for i := 0; i < n; i++ {
+			x := <-ch
+			if x.r == "unsat" || (x.r == "sat" && x.full) {
+				return x.r, x.name, x.out
+			}
+			if !x.full {
+				continue // sat/unknown on a weakened query says nothing
+			}
+			fullAnswers++
 			if x.r == "timeout" && result == "unknown" {
 				result = "timeout"
 			}
@@ -229,10 +385,31 @@ func Solve(file string, opts SolverOpts, cover bool) (result, solver, output str
 			}
 			output += x.name + ": " + x.r + "\n"
 		}
-		cancel()
-		if solver == "" && len(errs) == len(solvers) {
-			result = "error"
-			output = strings.Join(errs, "\n")
+		if len(errs) == len(solvers) {
+			return "error", "", strings.Join(errs, "\n")
+		}
+		return result, solver, output
+	}
+	// stage 1: the full query on all three back ends, short budget
+	short := 2
+	if opts.TimeoutS < short {
+		short = opts.TimeoutS
+	}
+	result, solver, output = race([]string{file}, 0, short)
+	if result != "unsat" && result != "sat" && result != "error" {
+		// stage 2: the full query again with the whole budget, raced against sound weakenings of it
+		// (prelude axioms dropped / quantified path facts dropped / both): fewer quantified facts often
+		// keep the back ends out of matching loops; unsat of a weakening proves the obligation.
+		b, err := os.ReadFile(file)
+		if err == nil {
+			files := []string{file}
+			for i, v := range [][2]bool{{true, false}, {false, true}, {true, true}} {
+				vf := fmt.Sprintf("%s.w%d.smt2", strings.TrimSuffix(file, ".smt2"), i+1)
+				os.WriteFile(vf, []byte(variant(string(b), v[0], v[1])), 0644)
+				files = append(files, vf)
+				defer os.Remove(vf)
+			}
+			result, solver, output = race(files, 0, opts.TimeoutS)
 		}
 	}
 	if opts.Confirm && result == "unsat" {
